@@ -298,9 +298,19 @@ def worker(case: Dict[str, Any]) -> CaseResult:
         allowed: Dict[str, Set[type]] = {"MixinA": set(), "MixinB": set()}
         for op_name, path, m, direct in mixin_sites:
             rc = root_classes.get(op_name)
-            if rc is None or not direct:
+            if rc is None:
                 continue
             classes = classes_for_path(rc, path)
+            if not direct:
+                # the annotated field is reached through a named fragment or a conditional fragment: whichever class validates the object at that
+                # path (the operation's own, or the fragment's field class it inherits from) must still carry the mixin
+                count("mixin_sites_through_fragments")
+                for c in classes:
+                    count("mixin_mro_checks")
+                    if getattr(mix_mod, m) not in c.__mro__:
+                        violations.append(Violation(PROP, "mixin-is-base", "%s: class %s generated for the field at %r (reached through a fragment) does not inherit %s (mro %r)" % (
+                            op_name, c.__name__, path, m, [b.__name__ for b in c.__mro__[:6]]), fl, replay_case, mech="c08:mixin-is-base-through-fragment"))
+                continue
             count("mixin_sites")
             if not classes:
                 continue
